@@ -298,6 +298,44 @@ Proof.
   - unfold gen_br_read. cbv zeta. apply rd_rel_forward, gen_br_read_unlimit_equiv.
 Qed.
 
+(* ------------------------------------------------------------------ the side condition cannot be dropped *)
+
+(** Without [sized_fits] / [limit_fits] the statements are false in the model's unbounded arithmetic: with a declared length,
+    an input and a room of 2^64 bytes each the generated code moves 2^64 - 1 bytes (the cap of the u64 -> usize conversion),
+    the model 2^64.  (No such slice exists for the Rust types, hence a side condition rather than a finding about the code.)
+    The witness is a list of 2^64 zeros, which is never evaluated: only its length is used. *)
+Lemma huge_bytes : exists b : bytes, len b = U64_LIMIT.
+Proof. exists (repeat 0 (N.to_nat U64_LIMIT)). rewrite len_length, repeat_length, N2Nat.id. reflexivity. Qed.
+
+Ltac split_if_in H :=
+  match type of H with
+  | context [if ?c then _ else _] => destruct c eqn:?; try (exfalso; lia)
+  end.
+
+Lemma gen_bw_write_equiv_unrestricted_refuted :
+  exists m e input avail out0,
+    ~ wr_rel avail out0 (gen_bw_write m e input avail out0) (writer_write {| w_mode := m; w_ended := e |} input avail).
+Proof.
+  destruct huge_bytes as [input Hlen].
+  exists (SSized U64_LIMIT), false, input, U64_LIMIT, []. intros H.
+  unfold gen_bw_write, writer_write in H. cbn [w_mode w_ended] in H. cbv zeta in H.
+  rewrite ?len_take, ?Hlen in H. unfold U64_LIMIT in *.
+  repeat split_if_in H; cbn [wr_rel] in H; try contradiction;
+    destruct H as (_ & _ & Hu & _); lia.
+Qed.
+
+Lemma gen_br_read_limit_equiv_unrestricted_refuted :
+  exists lft src dst stop,
+    ~ rd_rel dst (gen_br_read_limit (RLength lft) src dst) (reader_read (RLength lft) src (len dst) stop).
+Proof.
+  destruct huge_bytes as [b Hlen].
+  exists U64_LIMIT, b, b, false. intros H.
+  unfold gen_br_read_limit, reader_read in H. cbv zeta in H. cbn [rd_rel] in H.
+  rewrite ?Hlen in H. unfold U64_LIMIT in *.
+  destruct H as (_ & Hu & _); lia.
+Qed.
+
+
 (* ------------------------------------------------------------------ E. *)
 Print Assumptions take_eq.
 Print Assumptions drop_eq.
@@ -322,3 +360,6 @@ Print Assumptions gen_br_read_limit_equiv.
 Print Assumptions gen_br_read_unlimit_equiv.
 Print Assumptions rd_rel_forward.
 Print Assumptions gen_br_read_nonchunked_equiv.
+Print Assumptions huge_bytes.
+Print Assumptions gen_bw_write_equiv_unrestricted_refuted.
+Print Assumptions gen_br_read_limit_equiv_unrestricted_refuted.
